@@ -18,6 +18,7 @@ package window
 
 import (
 	"context"
+	"github.com/rulego/streamsql/verifhook"
 	"sync"
 	"time"
 )
@@ -141,6 +142,7 @@ func (wm *Watermark) sendWatermarkLocked() {
 		select {
 		case wm.watermarkChan <- wm.currentWatermark:
 			wm.lastSentWatermark = wm.currentWatermark
+			verifhook.At("wm.sent", wm, wm.currentWatermark.UnixMilli(), int64(len(wm.watermarkChan)), 0)
 		default:
 		}
 	}
